@@ -41,22 +41,21 @@ theorem entry_guard_observer {p : Prog} {B pc ok k : Nat} {m : Mem} (hp : Placed
 
 /-- **C15 on the core**: for a fault-free run, the checked and the unchecked build (same source,
 arguments, word size and stack size) perform the same events and both end in the terminal loop. -/
-theorem core_unchecked_same (w S : Nat) (params : List String) (args : List Int) (body : Core.S) (hw : 2 ≤ w)
-    (hB1 : Core.funcLen true body + stdlibLength < 256 ^ w) (hB0 : Core.funcLen false body + stdlibLength < 256 ^ w)
+theorem core_unchecked_same (w S : Nat) (args : List Int) (pr : Core.CProg) (hw : 2 ≤ w)
+    (hB1 : Core.progLen true pr + stdlibLength < 256 ^ w) (hB0 : Core.progLen false pr + stdlibLength < 256 ^ w)
     (hSE : 5 * w + S * w + args.length * w + w < 256 ^ w)
-    (hnd : params.Nodup) (hlen : args.length = params.length)
-    (hwf : Core.wfS params body = true) (hyl : Core.youLevel body = true)
+    (hwf : Core.wfProg pr = true) (hlen : args.length = pr.params.length)
     (fuel : Nat) (env' : Core.Env) (tr : List Ev) (res : Core.Res)
-    (hex : Core.exec (256 ^ w) (8 * w) fuel (Core.argEnv (256 ^ w) params args) body = some (env', tr, res))
-    (hnf : res ≠ .div0) (hroom : Core.pkS w (Core.entryOff w params) body ≤ S * w + args.length * w + w) :
+    (hex : Core.srcRun ⟨w, S, true⟩ fuel args pr = some (env', tr, res))
+    (hnf : res ≠ .div0) (hroom : Core.pkS w (Core.entryOff w pr.params) pr.body ≤ S * w + args.length * w + w) :
     ∃ m1 m0,
-      Exec (sphinx (Core.coreProg ⟨w, S, true⟩ params body)) (Core.coreInit ⟨w, S, true⟩ args body) (tr ++ [Ev.flag "win"])
-        ⟨tntPc (Core.funcLen true body), m1⟩ ∧
-      Exec (sphinx (Core.coreProg ⟨w, S, false⟩ params body)) (Core.coreInit ⟨w, S, false⟩ args body) (tr ++ [Ev.flag "win"])
-        ⟨tntPc (Core.funcLen false body), m0⟩ := by
-  obtain ⟨m1, h1, _⟩ := Core.core_correct ⟨w, S, true⟩ params args body hw hB1 hSE hnd hlen hwf hyl fuel env' tr res hex
+      Exec (sphinx (Core.coreProg ⟨w, S, true⟩ pr)) (Core.coreInit ⟨w, S, true⟩ args pr) (tr ++ [Ev.flag "win"])
+        ⟨tntPc (Core.progLen true pr), m1⟩ ∧
+      Exec (sphinx (Core.coreProg ⟨w, S, false⟩ pr)) (Core.coreInit ⟨w, S, false⟩ args pr) (tr ++ [Ev.flag "win"])
+        ⟨tntPc (Core.progLen false pr), m0⟩ := by
+  obtain ⟨m1, h1, _⟩ := Core.core_correct ⟨w, S, true⟩ args pr hw hB1 hSE hwf hlen fuel env' tr res hex
     (fun h => absurd h hnf) hroom
-  obtain ⟨m0, h0, _⟩ := Core.core_correct ⟨w, S, false⟩ params args body hw hB0 hSE hnd hlen hwf hyl fuel env' tr res hex
+  obtain ⟨m0, h0, _⟩ := Core.core_correct ⟨w, S, false⟩ args pr hw hB0 hSE hwf hlen fuel env' tr res hex
     (fun h => absurd h hnf) hroom
   have ht : Core.terminalEvs res = [Ev.flag "win"] := by
     cases res with
@@ -64,6 +63,7 @@ theorem core_unchecked_same (w S : Nat) (params : List String) (args : List Int)
     | norm => rfl
     | returned => rfl
     | defeat => rfl
+    | retv v => rfl
   rw [ht] at h1 h0
   exact ⟨m1, m0, h1, h0⟩
 
